@@ -95,6 +95,17 @@ class Interp:
         return None
 
 
+def recognise(g, name, source, node_fn, check):
+    """a structural fact as an ITEM: `true` when the known-good shape of the source is recognised; when it is not
+    (a refactor, or a change of behaviour) the item is `untranslatable`, which widens the correspondence sweep that
+    checks the behaviour itself — a harmless rewrite never alarms, a harmful one is caught on the real outputs."""
+    def build():
+        if not check():
+            raise Untranslatable('source shape not recognised')
+        return f'def {name} : Bool := true'
+    g.item(name, source, node_fn, build, f'def {name} : Bool := true')
+
+
 def generate(repo):
     g = Gen('C20', imports=['PrysmVerif.Model.C20'], opens=['Model.C20'],
             header='set_option linter.unusedVariables false\nvariable {K : Type} [Num K]')
@@ -105,7 +116,7 @@ def generate(repo):
         fn = get_def(po, '_empty_jones')
         (ret,) = find_returns(fn)
         return ast.unparse(ret) == 'np.zeros(shape, dtype=config.precision_complex)'
-    g.fact('emptyJonesIsZeros', 'prysm/x/polarization.py:_empty_jones', empty_zero)
+    recognise(g, 'emptyJonesIsZeros', 'prysm/x/polarization.py:_empty_jones', None, empty_zero)
 
     # ------------------------------------------------------------------ rotation matrix
     def rot():
@@ -199,14 +210,14 @@ def generate(repo):
         need = ['U /= np.sqrt(2)', 'jprod = broadcast_kron(np.conj(jones), jones)', 'jprod = np.kron(np.conj(jones), jones)',
                 'M = np.real(U @ jprod @ np.linalg.inv(U))']
         return all(n in src for n in need) and [ast.unparse(r) for r in find_returns(fn)] == ['M']
-    g.fact('muellerIsRealOfUKronConjJJUinv', 'prysm/x/polarization.py:jones_to_mueller', mueller_form)
+    recognise(g, 'muellerIsRealOfUKronConjJJUinv', 'prysm/x/polarization.py:jones_to_mueller', None, mueller_form)
 
     def kron_form():
         fn = get_def(po, 'broadcast_kron')
         src = [ast.unparse(st) for st in fn.body if isinstance(st, (ast.Assign, ast.Return))]
         return src == ["tmp = np.einsum('...ik,...jl', a, b)",
                        'return tmp.reshape([*a.shape[:-2], a.shape[-2] * b.shape[-2], a.shape[-1] * b.shape[-1]])']
-    g.fact('broadcastKronIsKronecker', 'prysm/x/polarization.py:broadcast_kron', kron_form)
+    recognise(g, 'broadcastKronIsKronecker', 'prysm/x/polarization.py:broadcast_kron', None, kron_form)
 
     # ------------------------------------------------------------------ Pauli matrices and coefficients
     def pauli_tables():
@@ -297,7 +308,7 @@ def generate(repo):
         wr = [n for n in fn.body if isinstance(n, ast.FunctionDef) and n.name == 'wrapper'][0]
         ifs = [st for st in wr.body if isinstance(st, ast.If) and ast.unparse(st.test) == 'wavefunction.ndim == 2']
         return len(ifs) == 1 and [ast.unparse(s) for s in ifs[0].body] == ['return prop_func(*args, **kwargs)']
-    g.fact('adapterScalarPassThrough', 'prysm/x/polarization.py:jones_adapter', adapter_passthrough)
+    recognise(g, 'adapterScalarPassThrough', 'prysm/x/polarization.py:jones_adapter', None, adapter_passthrough)
 
     def supported():
         tab = ast.literal_eval(get_const(po, 'supported_propagation_funcs'))
